@@ -307,12 +307,29 @@ func C06History() {
 		sym.Quiesce()
 	}
 	a := l.connect()
-	if sym.Bool("present-other-credentials") {
+	switch sym.Choose("what-the-later-connection-presents", 5) {
+	case 1:
 		u := sym.Str("user", 1+sym.Choose("user-len", 3))
 		t := sym.Str("token", 1+sym.Choose("token-len", 3))
 		sym.Assume(sym.Not(sym.And(sym.EqStr(u, goodU), sym.EqStr(t, goodT))))
 		other := CapabilityMap{KeyUser: value.String(u), KeyToken: value.String(t)}
 		a.inject(zzFrame(net.Call, 0, 0, 8, 5, zzCapPayload(other)))
+		sym.Quiesce()
+	case 2:
+		// an authenticate request carrying NO credentials at all (an empty map)
+		a.inject(zzFrame(net.Call, 0, 0, 8, 5, zzCapPayload(CapabilityMap{})))
+		sym.Quiesce()
+	case 3:
+		// half of the accepted pair only
+		half := CapabilityMap{KeyUser: value.String(goodU)}
+		if sym.Bool("token-only") {
+			half = CapabilityMap{KeyToken: value.String(goodT)}
+		}
+		a.inject(zzFrame(net.Call, 0, 0, 8, 5, zzCapPayload(half)))
+		sym.Quiesce()
+	case 4:
+		// an unrelated capability only
+		a.inject(zzFrame(net.Call, 0, 0, 8, 5, zzCapPayload(CapabilityMap{"ClientServerSocket": value.Bool(true)})))
 		sym.Quiesce()
 	}
 	a.inject(zzFrame(net.Call, 1, 1, 0, 6, nil))
